@@ -8,3 +8,7 @@ import AGV.Props.C11
 #print axioms AGV.Props.C11.c11_pinned_upper
 #print axioms AGV.Props.C11.c11_poly_norepeat_anynames
 #print axioms AGV.Props.C11.c11_poly_norepeat
+#print axioms AGV.Props.C11.c11_value_checks_linear
+#print axioms AGV.Props.C11.c11_value_checks_doc
+#print axioms AGV.Props.C11.c11_value_recheck_exponential
+#print axioms AGV.Props.C11.c11_value_recheck_exceeds_bound
